@@ -365,6 +365,65 @@ def check(run):
         if c['kind'] == 'send':
             run.count('outcome_' + o['kind'] + ('_' + o.get('err', '') if o['kind'] == 'refused' else ''))
     check_refused_start(run)
+    check_stop_with_closed_loop(run)
+
+
+def check_stop_with_closed_loop(run):
+    """'after any kind of stop ... it raises EdzedInvalidState and delivers nothing': a stop request
+    (abort) made after the application closed the event loop without a shutdown.  The simulation task
+    cannot be cancelled any more (Task.cancel() raises 'Event loop is closed'); the stop was requested
+    all the same and the circuit must not accept events afterwards."""
+    obs = dict(before=None, abort=None, ready=None, send=None, harness=None)
+    delivered = []
+    keep = []
+    try:
+        edzed.reset_circuit()
+        circuit = edzed.get_circuit()
+
+        class P(edzed.SBlock):
+            def init_regular(self):
+                self.set_output(0)
+
+            def _event(self, etype, data):
+                delivered.append(dict(data))
+                return 'handled'
+        p = P('p')
+        ev = edzed.ExtEvent(p, 'put', source='late')
+        loop = asyncio.new_event_loop()
+
+        async def start():
+            keep.append(asyncio.create_task(circuit.run_forever()))
+            await circuit.wait_init()
+            obs['before'] = ev.send(1)
+            for _ in range(5):
+                await asyncio.sleep(0)
+        loop.run_until_complete(start())
+        loop.close()
+        try:
+            circuit.abort(edzed.EdzedCircuitError('application exit'))
+            obs['abort'] = 'returned'
+        except Exception as err:                  # noqa
+            obs['abort'] = type(err).__name__
+        obs['ready'] = circuit.is_ready()
+        try:
+            obs['send'] = ['delivered', repr(ev.send(2))]
+        except Exception as err:                  # noqa
+            obs['send'] = ['refused', type(err).__name__]
+    except BaseException as err:                  # noqa
+        obs['harness'] = repr(err)[:200]
+    finally:
+        edzed.reset_circuit()
+    run.add_case(dict(stop_with_closed_loop=True), True)
+    run.count('stop_with_closed_loop')
+    ok = (obs['harness'] is None and obs['before'] == 'handled' and obs['ready'] is False
+          and obs['send'] == ['refused', 'EdzedInvalidState'] and len(delivered) == 1)
+    run.add_obligation(ok)
+    if not ok:
+        run.violation('monitor', dict(case=dict(stop_with_closed_loop=True), observed=obs),
+                      f"abort() after the event loop was closed: abort -> {obs['abort']}, is_ready()={obs['ready']}, "
+                      f"send -> {obs['send']} (expected: refused with EdzedInvalidState), deliveries {len(delivered)} "
+                      f"(expected 1, made while running); harness: {obs['harness']}",
+                      clause='send_after_stop_with_closed_loop', concrete=True)
 
 
 def check_refused_start(run):
@@ -429,4 +488,6 @@ def replay(run, path):
     _, case = common.load_replay_case(path)
     if isinstance(case, dict) and 'refused_start' in case:
         return common.directed_replay(run, path, lambda: check_refused_start(run))
+    if isinstance(case, dict) and 'stop_with_closed_loop' in case:
+        return common.directed_replay(run, path, lambda: check_stop_with_closed_loop(run))
     return common.std_replay(run, C14(), path)
